@@ -386,7 +386,16 @@ func aliasParent(w *World) {
 	t := w.Tape
 	mon := &aliasMon{w: w, key: map[string]any{"model": "parentpb"}}
 	m := parentpb.NewModel()
-	m.AddChild(&traits.Child{Name: "c1", Traits: []*traits.Trait{{Name: "b"}, {Name: "m"}}})
+	// (trait lists of every length up to ten, announced one or several at a time and in any order: what a list's spare
+	// capacity and an insertion in the middle do to earlier results depends on all of that)
+	tn := []trait.Name{"a", "b", "c", "d", "e", "f", "g", "h", "i", "z"}
+	first := &traits.Child{Name: "c1"}
+	for _, n := range tn {
+		if t.Flag(1, 2) {
+			first.Traits = append(first.Traits, &traits.Trait{Name: string(n)})
+		}
+	}
+	m.AddChild(first)
 	ctx, cancel := context.WithCancel(context.Background())
 	defer cancel()
 	if t.Flag(2, 3) {
@@ -404,18 +413,21 @@ func aliasParent(w *World) {
 		})
 	}
 	names := []string{"c1", "c2"}
-	tn := []trait.Name{"a", "b", "c", "m", "z"}
 	n := 2 + t.Choose(7)
 	w.Go("w", false, func(task *Task) {
 		for i := 0; i < n; i++ {
 			task.Yield("op")
 			name := names[t.Choose(2)]
-			t1, t2 := tn[t.Choose(5)], tn[t.Choose(5)]
+			t1 := tn[t.Choose(len(tn))]
 			var desc string
 			switch t.Choose(6) {
 			case 0, 1, 2:
-				c, _ := m.AddChildTrait(name, t1, t2)
-				desc = fmt.Sprintf("AddChildTrait(%s,%s,%s)", name, t1, t2)
+				ts := []trait.Name{t1}
+				for k := t.Choose(4); k > 0; k-- {
+					ts = append(ts, tn[t.Choose(len(tn))])
+				}
+				c, _ := m.AddChildTrait(name, ts...)
+				desc = fmt.Sprintf("AddChildTrait(%s,%v)", name, ts)
 				mon.track("caller: result of "+desc, c)
 			case 3:
 				c := m.RemoveChildTrait(name, t1)
